@@ -397,9 +397,19 @@ pub fn literal() -> Vec<Config> {
     v.push(cfg("saftvrmie_methane_m1", M::SaftVRMie(saftvrmie(&["methane"])), 1, 190.0, true));
     // SAFT-VR Mie: a spherical (m = 1) next to a chain component (which contributions exist is decided from the whole parameter set)
     v.push(cfg("saftvrmie_methane_butane", M::SaftVRMie(saftvrmie(&["methane", "n-butane"])), 2, 300.0, false));
+    // SAFT-VR Mie: a spherical (m = 1) self-associating component (water-like 2B record; no shipped record of this kind): the closed-form A-B
+    // association term next to the monomer term only (core for the virial property C13; thorough tier / oracle elsewhere)
+    v.push(cfg("saftvrmie_literal_spherical_assoc", M::SaftVRMie(saftvrmie_spherical_assoc()), 1, 500.0, false));
     // SAFT-VRQ Mie with mixed Feynman-Hibbs orders (thorough tier: ~10k instructions)
     v.push(cfg("saftvrqmie_literal_h2fh1_nefh0", M::SaftVRQMie(saftvrqmie_mixed_fh()), 2, 40.0, false));
     v
+}
+
+pub fn saftvrmie_spherical_assoc() -> SaftVRMie {
+    use feos::saftvrmie::SaftVRMieRecord;
+    let record = SaftVRMieRecord::new(1.0, 3.0555, 418.0, 35.823, 6.0, Some(0.45), Some(1600.0), Some(1.0), Some(1.0), None, None, None, None);
+    let pure = PureRecord::new(Identifier::default(), 18.015, record);
+    SaftVRMie::new(Arc::new(SaftVRMieParameters::new_pure(pure).unwrap()))
 }
 
 /// hydrogen with first-order Feynman-Hibbs correction next to a classical (FH0) neon: the cross pair's order is max(fh_i, fh_j)
